@@ -299,13 +299,20 @@ pub fn argv_of(scn: &Scenario, r: &RunSpec, data: &Path, dump: &Path) -> Vec<Str
     for _ in 0..r.verbosity {
         a.push("-v".into());
     }
+    let spell_height = |h: u64| -> String {
+        match r.height_style {
+            1 => format!("{:07}", h),
+            2 => format!("+{}", h),
+            _ => h.to_string(),
+        }
+    };
     if let Some(s) = r.start {
         a.push("-s".into());
-        a.push(s.to_string());
+        a.push(spell_height(s));
     }
     if let Some(e) = r.end {
         a.push("-e".into());
-        a.push(e.to_string());
+        a.push(spell_height(e));
     }
     a.push(r.callback.clone());
     if matches!(r.callback.as_str(), "csvdump" | "unspentcsvdump" | "balances") {
